@@ -181,15 +181,15 @@ func genBlocks(t *rapid.T) []types.BlockID {
 	ph1b[0] ^= 0x80
 	return []types.BlockID{
 		{}, // nil block
-		{Hash: h1, PartsHeader: types.PartSetHeader{Total: 3, Hash: ph1}},                    // B
-		{Hash: h1b, PartsHeader: types.PartSetHeader{Total: 3, Hash: ph1}},                   // one hash bit
-		{Hash: h1, PartsHeader: types.PartSetHeader{Total: 4, Hash: ph1}},                    // parts total
-		{Hash: h1, PartsHeader: types.PartSetHeader{Total: 3, Hash: ph1b}},                   // parts hash
-		{Hash: h2, PartsHeader: types.PartSetHeader{Total: 1, Hash: sha("p2", s)}},           // unrelated
-		{Hash: common.Hash{}, PartsHeader: types.PartSetHeader{Total: 0, Hash: ph1}},         // IsZero() but not the nil block
-		{Hash: h1, PartsHeader: types.PartSetHeader{Total: 3}},                               // no parts hash
-		{Hash: h1, PartsHeader: types.PartSetHeader{}},                                       // hash only
-		{Hash: common.Hash{}, PartsHeader: types.PartSetHeader{Total: 3, Hash: ph1}},         // parts only
+		{Hash: h1, PartsHeader: types.PartSetHeader{Total: 3, Hash: ph1}},                               // B
+		{Hash: h1b, PartsHeader: types.PartSetHeader{Total: 3, Hash: ph1}},                              // one hash bit
+		{Hash: h1, PartsHeader: types.PartSetHeader{Total: 4, Hash: ph1}},                               // parts total
+		{Hash: h1, PartsHeader: types.PartSetHeader{Total: 3, Hash: ph1b}},                              // parts hash
+		{Hash: h2, PartsHeader: types.PartSetHeader{Total: 1, Hash: sha("p2", s)}},                      // unrelated
+		{Hash: common.Hash{}, PartsHeader: types.PartSetHeader{Total: 0, Hash: ph1}},                    // IsZero() but not the nil block
+		{Hash: h1, PartsHeader: types.PartSetHeader{Total: 3}},                                          // no parts hash
+		{Hash: h1, PartsHeader: types.PartSetHeader{}},                                                  // hash only
+		{Hash: common.Hash{}, PartsHeader: types.PartSetHeader{Total: 3, Hash: ph1}},                    // parts only
 		{Hash: h1, PartsHeader: types.PartSetHeader{Total: 3, Hash: append(ph1[:31:31], ph1[31]^0xff)}}, // last byte of parts hash
 	}
 }
@@ -531,7 +531,7 @@ func seq(a, b int) []int {
 
 // genPool: per-validator choices -> vote pool.
 func (w *world) genPool(t *rapid.T) (pool []*mvote, kinds []string) {
-	honesty := rapid.SampledFrom([]int{40, 55, 67, 75, 85, 95}).Draw(t, "honesty")
+	honesty := rapid.SampledFrom([]int{30, 45, 55, 67, 75, 85, 95}).Draw(t, "honesty")
 	for i := 0; i < w.n; i++ {
 		kind := "forB"
 		if rapid.IntRange(0, 99).Draw(t, "roll") >= honesty {
@@ -697,12 +697,12 @@ type op struct {
 
 type vsModel struct {
 	w         *world
-	byVal     [][]*mvote       // valid votes submitted so far, per validator, arrival order
-	voters    map[int]bool     // validators with at least one valid vote
-	perBlock  []map[int]bool   // block index -> validators with a valid vote for it
-	claimed   map[int]bool     // block indices some peer claimed
-	equiv     bool             // some validator has submitted valid votes for two different blocks
-	reported  int              // block index of the reported majority, -1 none
+	byVal     [][]*mvote     // valid votes submitted so far, per validator, arrival order
+	voters    map[int]bool   // validators with at least one valid vote
+	perBlock  []map[int]bool // block index -> validators with a valid vote for it
+	claimed   map[int]bool   // block indices some peer claimed
+	equiv     bool           // some validator has submitted valid votes for two different blocks
+	reported  int            // block index of the reported majority, -1 none
 	byPtr     map[*types.Vote]*mvote
 	submitted int
 }
@@ -947,13 +947,6 @@ func (md *vsModel) checkState(t vstat.TB, vs *types.VoteSet, verifyCommit bool, 
 		if !moreThanTwoThirds(tally, w.total) {
 			return vstat.Violation(t, P, "voteset:majority-without-two-thirds", "majority reported for block #%d; valid votes of distinct validators for it hold %v of %v (powers %v, voters %v) ; %s", X, tally, w.total, w.power, keysOf(md.perBlock[X]), hist())
 		}
-		// votes for the majority block take priority in the canonical list
-		bits := bitsOf(vs.BitArrayByBlockID(id), w.n)
-		for i := 0; i < w.n; i++ {
-			if g := vs.GetByIndex(i); bits[i] && (g == nil || !g.BlockID.Equals(id)) {
-				return vstat.Violation(t, P, "voteset:majority-vote-not-canonical", "validator %d is counted for majority block #%d but the canonical vote is %v ; %s", i, X, g, hist())
-			}
-		}
 		first := md.reported < 0
 		md.reported = X
 		if (first || verifyCommit) && w.T == types.VoteTypePrecommit {
@@ -1190,7 +1183,7 @@ func runCommitCase(t *rapid.T) {
 		}
 		// mutations: slots permuted / duplicated / dropped / truncated / padded
 		var muts []string
-		for k := rapid.SampledFrom([]int{0, 0, 1, 1, 2, 3}).Draw(t, "nmut"); k > 0; k-- {
+		for k := rapid.SampledFrom([]int{0, 0, 0, 1, 1, 2}).Draw(t, "nmut"); k > 0; k-- {
 			mu := rapid.SampledFrom([]string{"swap", "copy", "drop", "truncate", "pad", "foreign", "shift"}).Draw(t, "mut")
 			muts = append(muts, mu)
 			switch mu {
